@@ -77,6 +77,9 @@ class World(object):
         kw["useEncryptThenMAC"] = s_opts.get("etm", True)
         if s_opts.get("ciphers"):
             kw["cipherNames"] = s_opts["ciphers"]
+        if s_opts.get("xpsk"):
+            kw["pskConfigs"] = [(bytearray(b"xpsk-id"),
+                                 bytearray(b"\x33" * 32), "sha256")]
         if s_opts.get("hrr"):
             kw["eccCurves"] = ["secp256r1", "secp384r1"]
             kw["keyShares"] = ["secp256r1"]
@@ -89,6 +92,9 @@ def client_settings(v, c_opts):
     kw["useEncryptThenMAC"] = c_opts.get("etm", True)
     if c_opts.get("ciphers"):
         kw["cipherNames"] = c_opts["ciphers"]
+    if c_opts.get("xpsk"):
+        kw["pskConfigs"] = [(bytearray(b"xpsk-id"), bytearray(b"\x33" * 32),
+                             "sha256")]
     if c_opts.get("hrr"):
         # first key share is for a group the server does not take:
         # HelloRetryRequest
@@ -148,6 +154,32 @@ def was_resumed(p):
             else:
                 break
         msgs = tap.split_hs(buf)[0]
+        # an *external* PSK being selected is not a resumption
+        try:
+            sh = [tap.parse_server_hello(b) for t, b in msgs if t == 2]
+            sh = [x for x in sh if not x["hrr"]]
+            if sh and 41 in sh[-1]["exts"]:
+                sel = int.from_bytes(sh[-1]["exts"][41][:2], "big")
+                cbuf = b""
+                for r in records(p.link.wire("c"))[0]:
+                    if r["type"] == 22:
+                        cbuf += r["body"]
+                    elif r["type"] != 20:
+                        break
+                chs = [tap.parse_client_hello(b)
+                       for t, b in tap.split_hs(cbuf)[0] if t == 1]
+                ext = chs[-1]["exts"].get(41)
+                ids = []
+                q = 2
+                end = 2 + int.from_bytes(ext[0:2], "big")
+                while q < end:
+                    ln = int.from_bytes(ext[q:q + 2], "big")
+                    ids.append(bytes(ext[q + 2:q + 2 + ln]))
+                    q += 2 + ln + 4
+                if sel < len(ids) and ids[sel] == b"xpsk-id":
+                    return False
+        except (IndexError, KeyError, ValueError, TypeError):
+            pass
         sh = [tap.parse_server_hello(b) for t, b in msgs if t == 2]
         sh = [x for x in sh if not x["hrr"]]
         return bool(sh) and 41 in sh[-1]["exts"]
@@ -389,6 +421,9 @@ def do_resume(w, i, e, offer):
         c_opts["ems"] = offer["ems"]
     if "etm" in offer:
         c_opts["etm"] = offer["etm"]
+    if offer.get("xpsk") and v == "tls13":
+        c_opts["xpsk"] = True
+        s_opts["xpsk"] = True
     if offer.get("hrr") and v == "tls13":
         c_opts["hrr"] = True
         s_opts["hrr"] = True
@@ -625,6 +660,7 @@ def op_strategy():
             {}, optional={"ems": st.booleans(), "etm": st.booleans(),
                           "drop_ccert": st.just(True),
                           "hrr": st.just(True),
+                          "xpsk": st.just(True),
                           "s_ciphers": st.sampled_from(
                               [["aes128"], ["aes256gcm", "aes128gcm",
                                             "chacha20-poly1305"]]),
@@ -689,6 +725,17 @@ def explicit(tier, seed):
                            ["resume", 0, {}]]}
             yield {"ops": [full, ["resume", 0, {"hrr": True}],
                            ["resume", 0, {"hrr": True}]]}
+            if v == "tls13":
+                # an external PSK next to the ticket; first-ever connection
+                # keyed by an external PSK alone
+                yield {"ops": [full, ["resume", 0, {"xpsk": True}]]}
+                yield {"ops": [full, ["tamper", 0, "foreign"],
+                               ["resume", 0, {"xpsk": True}]]}
+                yield {"ops": [full, ["rotate", "replace_all"],
+                               ["resume", 0, {"xpsk": True}]]}
+                xp = dict(base_c, xpsk=True)
+                yield {"ops": [["full", v, xp, dict(s_opts, xpsk=True)],
+                               ["resume", 0, {}]]}
             yield {"ops": [full, ["evict"], ["resume", 0, {}]]}
             # expiry must still work after the cache ring has wrapped
             full2 = ["full", v, dict(base_c), dict(s_opts)]
